@@ -4,7 +4,7 @@
 // reports the observables the specifications' `last.exp` talk about.  It never
 // decides anything.
 //
-// input line: {"id":..,"kind":"stream"|"fixed","rbuf":"direct"|"owned"|"view"|"fixed","h":[...]}
+// input line: {"id":..,"kind":"stream"|"fixed","rbuf":"direct"|"owned"|"view"|"fixed"|"fixedwriter","h":[...]}
 //
 // Mapping of model values to concrete values (injective, inverted when reading back;
 // a value that is not in the image is reported as the string "unmapped:<value>"):
@@ -96,65 +96,80 @@ struct StreamWorld : IWorld
 
   StreamWorld(const std::string &k) : rbufKind(k) {}
 
-  template <typename T>
-  void put(const T &x)
+  // the item as the concrete C++ object, streamed into ONE write stream (BufferWriter,
+  // WriteSizeCalculator, FixedBufferWriter: all through the WriteStream operators)
+  static std::string codes2str(const Json &v)
   {
-    w << x;
-    calc << x;
+    if (v.type == Json::Str) return v.str();
+    std::string x(v.size(), '\0'); // std::string(size, bytes): NUL bytes are ordinary characters
+    for (size_t i = 0; i < v.size(); ++i) x[i] = (char)(unsigned char)v[i].num();
+    return x;
+  }
+  static std::vector<std::string> strs(const Json &v)
+  {
+    std::vector<std::string> x;
+    for (size_t i = 0; i < v.size(); ++i) x.push_back(codes2str(v[i]));
+    return x;
+  }
+  static Json str2codes(const std::string &x)
+  {
+    Json a = Json::array();
+    for (unsigned char c : x) a.push(Json((int)c));
+    return a;
   }
 
-  void write(const Json &item)
+  static void emit(const Json &item, WriteStream &out)
   {
     const std::string &t = item["t"].str();
     const Json &v = item["v"];
-    if (t == "u8") put<uint8_t>((uint8_t)v.num());
-    else if (t == "i32") put<int32_t>((int32_t)v.num());
-    else if (t == "u64") put<size_t>((size_t)v.num() * 0x100000001ULL);
-    else if (t == "f64") put<double>((double)v.num() / 8.0);
+    if (t == "u8") out << (uint8_t)v.num();
+    else if (t == "i32") out << (int32_t)v.num();
+    else if (t == "u64") out << (size_t)((size_t)v.num() * 0x100000001ULL);
+    else if (t == "f64") out << (double)((double)v.num() / 8.0);
     else if (t == "pod") {
       Pod p;
       std::memset(&p, 0, sizeof p);
       p.a = (int32_t)v[0].num();
       p.b = (float)v[1].num() * 0.5f;
       p.c = (uint8_t)v[2].num();
-      put(p);
-    } else if (t == "str") put<std::string>(v.str());
-    else if (t == "cstr") {
-      const std::string s = v.str();
-      const char *c = s.c_str();
-      w << c;
-      calc << c;
-    } else if (t == "vi") put(ints(v));
-    else if (t == "vs") {
-      std::vector<std::string> x;
-      for (size_t i = 0; i < v.size(); ++i) x.push_back(v[i].str());
-      put(x);
+      out << p;
+    } else if (t == "str" || t == "bstr") {
+      const std::string x = codes2str(v); // operator<<(WriteStream&, const std::string&): size() bytes
+      out << x;
+    } else if (t == "cstr" || t == "cstrb") {
+      const std::string x = codes2str(v);
+      const char *c = x.c_str(); // operator<<(WriteStream&, const char*): strlen() bytes
+      out << c;
+    } else if (t == "vi") out << ints(v);
+    else if (t == "vs" || t == "vbs") out << strs(v);
+    else if (t == "vvbs") {
+      std::vector<std::vector<std::string>> x;
+      for (size_t i = 0; i < v.size(); ++i) x.push_back(strs(v[i]));
+      out << x;
     } else if (t == "vvi") {
       std::vector<std::vector<int>> x;
       for (size_t i = 0; i < v.size(); ++i) x.push_back(ints(v[i]));
-      put(x);
+      out << x;
     } else if (t == "raw") {
       std::vector<uint8_t> b = bytes(v);
-      w.write(b.data(), b.size());
-      calc.write(b.data(), b.size());
+      out.write(b.data(), b.size());
     } else if (t == "OwnedArray<int>") {
       std::vector<int> x = ints(v);
       OwnedArray<int> a(x);
-      put(a); // static type: the concrete wrapper
+      out << a; // static type: the concrete wrapper
     } else if (t == "ArrayView<int>") {
       std::vector<int> x = ints(v);
       ArrayView<int> a(x);
-      put(a);
+      out << a;
     } else if (t == "FixedArray<int>") {
       std::vector<int> x = ints(v);
       FixedArray<int> a(x);
-      put(a);
+      out << a;
     } else if (t == "AbstractArray<int>&") {
       std::vector<int> x = ints(v);
       OwnedArray<int> o(x);
       const AbstractArray<int> &a = o;
-      w << a;
-      calc << a;
+      out << a;
     } else if (t == "FixedArrayView<uint8_t>") {
       // a view of v.size() bytes at offset 1 of a FixedArray of v.size() + 2 bytes
       std::vector<uint8_t> x = bytes(v);
@@ -162,9 +177,18 @@ struct StreamWorld : IWorld
       std::copy(x.begin(), x.end(), padded.begin() + 1);
       auto fb = std::make_shared<FixedArray<uint8_t>>(padded);
       FixedArray<uint8_t>::View a(fb, 1, x.size());
-      put(a);
+      out << a;
     } else
       throw std::runtime_error("driver: unknown item type " + t);
+  }
+
+  std::vector<Json> written; // the items, for the reader-buffer kind "fixedwriter"
+
+  void write(const Json &item)
+  {
+    emit(item, w);
+    emit(item, calc);
+    written.push_back(item);
   }
 
   void open(size_t k)
@@ -174,7 +198,14 @@ struct StreamWorld : IWorld
     const uint8_t *src = w.buffer->data();
     const size_t total = w.buffer->size();
     if (k > total) throw std::runtime_error("driver: truncation point beyond the written bytes");
-    if (rbufKind == "direct" && k == total) {
+    if (rbufKind == "fixedwriter") {
+      // every item again, into a FixedBufferWriter whose capacity is exactly the bytes written:
+      // the reader reads (the first k bytes of) that writer's buffer
+      FixedBufferWriter fw(total);
+      for (const Json &it : written) emit(it, fw);
+      if (fw.available() != 0) throw std::runtime_error("driver: the FixedBufferWriter holds fewer bytes than the BufferWriter");
+      rbuf = std::make_shared<FixedArray<uint8_t>::View>(fw.buffer, 0, k);
+    } else if (rbufKind == "direct" && k == total) {
       rbuf = w.buffer; // the writer's own buffer
     } else if (rbufKind == "view") {
       backing.reset(new uint8_t[k]); // exactly k bytes: an over-read is a heap-buffer-overflow
@@ -208,20 +239,22 @@ struct StreamWorld : IWorld
   std::unique_ptr<std::vector<uint8_t>> sVb;
   std::unique_ptr<std::vector<std::string>> sVs;
   std::unique_ptr<std::vector<std::vector<int>>> sVvi;
+  std::unique_ptr<std::vector<std::vector<std::string>>> sVvs;
   uint8_t pU8 = 0;
   int32_t pI32 = 0;
   size_t pU64 = 0;
   double pF64 = 0;
   Pod pPod = Pod();
 
-  static void assign(std::string &d, const Json &v) { d = v.str(); }
-  static void assign(std::vector<int> &d, const Json &v) { d = ints(v); }
-  static void assign(std::vector<uint8_t> &d, const Json &v) { d = bytes(v); }
-  static void assign(std::vector<std::string> &d, const Json &v)
+  static void assign(std::string &d, const Json &v) { d = codes2str(v); }
+  static void assign(std::vector<std::vector<std::string>> &d, const Json &v)
   {
     d.clear();
-    for (size_t i = 0; i < v.size(); ++i) d.push_back(v[i].str());
+    for (size_t i = 0; i < v.size(); ++i) d.push_back(strs(v[i]));
   }
+  static void assign(std::vector<int> &d, const Json &v) { d = ints(v); }
+  static void assign(std::vector<uint8_t> &d, const Json &v) { d = bytes(v); }
+  static void assign(std::vector<std::string> &d, const Json &v) { d = strs(v); }
   static void assign(std::vector<std::vector<int>> &d, const Json &v)
   {
     d.clear();
@@ -247,7 +280,9 @@ struct StreamWorld : IWorld
   {
     const std::string &t = arg["t"].str();
     const bool vec = arg["via"].str() == "vec";
-    if (t == "str" || t == "cstr") sStr.reset();
+    if (t == "str" || t == "cstr" || t == "bstr" || t == "cstrb") sStr.reset();
+    else if (t == "vbs") sVs.reset();
+    else if (t == "vvbs") sVvs.reset();
     else if (t == "vi" || (vec && t != "FixedArrayView<uint8_t>")) sVi.reset();
     else if (vec) sVb.reset();
     else if (t == "vs") sVs.reset();
@@ -283,6 +318,23 @@ struct StreamWorld : IWorld
       return a;
     }
     if (t == "str" || t == "cstr") { std::string &x = dest(sStr, arg); r >> x; return Json(x); }
+    if (t == "bstr" || t == "cstrb") { std::string &x = dest(sStr, arg); r >> x; return str2codes(x); }
+    if (t == "vbs") {
+      std::vector<std::string> &x = dest(sVs, arg); r >> x;
+      Json a = Json::array();
+      for (auto &e : x) a.push(str2codes(e));
+      return a;
+    }
+    if (t == "vvbs") {
+      std::vector<std::vector<std::string>> &x = dest(sVvs, arg); r >> x;
+      Json a = Json::array();
+      for (auto &e : x) {
+        Json b = Json::array();
+        for (auto &f : e) b.push(str2codes(f));
+        a.push(b);
+      }
+      return a;
+    }
     if (t == "vi") { std::vector<int> &x = dest(sVi, arg); r >> x; return arr(x); }
     if (t == "vs") {
       std::vector<std::string> &x = dest(sVs, arg); r >> x;
@@ -352,6 +404,21 @@ struct StreamWorld : IWorld
     if (a == "Write") {
       const size_t before = w.buffer->size();
       write(arg["item"]);
+      if (arg.has("cap") && arg["cap"].num() >= 0) {
+        // the same item into a FixedBufferWriter of the capacity the specification computed for it
+        FixedBufferWriter fw((size_t)arg["cap"].num());
+        Json f = Json::object();
+        try {
+          emit(arg["item"], fw);
+          f.set("ret", "ok");
+        } catch (const std::runtime_error &e) {
+          if (std::string(e.what()).compare(0, 7, "driver:") == 0) throw;
+          f.set("ret", "throws");
+        }
+        f.set("written", num(fw.getWrittenView()->size()));
+        f.set("available", num(fw.available()));
+        o.set("xfixed", f); // (named so that it sorts after len / predicted / total)
+      }
       o.set("len", num(w.buffer->size() - before));
       o.set("total", num(w.buffer->size()));
       o.set("predicted", num(calc.writtenSize));
